@@ -13,7 +13,7 @@ func init() {
 		technique: "lockset (guarded-by with caller-holds propagation) on the ready-queue state, condition-variable discipline over the CFG, straight-line ring-buffer update rule, lock-order rule for the two-queue steal",
 		explanation: "Decides: (1) every access to localQueue.{buf,head,tail,size} holds that queue's mu and every access to readyQueue.{global,parked,closed} and to the global ring's fields holds parkMu (helpers without their own locking are only called with the lock held); the lock-free size mirrors (sizeAtomic, globalCount) are stored only under the respective lock, and every critical section that changes a ring's size refreshes that ring's mirror before it ends (both rings of a steal; workers skip a ring whose mirror reads 0 without locking); (2) condition variable: cond.Wait is called only with parkMu held inside a loop that re-reads closed and the global size before every wait; push publishes to the global ring before Signal in one critical section; close sets closed before Broadcast in one critical section; (3) the two-queue steal takes both locks through lockOrder and returns at once when victim and thief are the same queue; (4) ring updates are all-or-nothing: every removal reads the slot, clears it, advances head and decrements size in one straight-line block; every insertion writes the slot, advances tail and increments size likewise; a stolen element is written to exactly one place; (5) take reports 'closed' only from the closed branch of parkAndTake and worker.run exits only on that report. Loss/duplication across interleavings beyond what mutual exclusion gives is not decided.",
 		assumptions: []string{"lock identity is per field (two instances of localQueue are distinguished only in stealHalf via lockOrder)", "sync.Cond semantics"},
-		minObl:     40,
+		minObl:     46,
 		run:        runC05,
 	})
 }
